@@ -10,6 +10,7 @@ from typing import Any, Dict, List, Optional, Tuple
 
 import front_gen as fg
 import pyside
+import vlib
 from vlib import VERIF, Broken, Check, clist, cz, run_workers
 
 HEADER = """From Coq Require Import ZArith List Bool String.
@@ -128,5 +129,5 @@ def ensure_model_translation() -> Optional[str]:
         translate_front.gen_front()
         return None
     except Broken as b:
-        shutil.copy(os.path.join(VERIF, "coq", "ref", "GenFront.v"), os.path.join(VERIF, "coq", "gen", "GenFront.v"))
+        shutil.copy(os.path.join(vlib.COQ, "ref", "GenFront.v"), os.path.join(vlib.COQ, "gen", "GenFront.v"))
         return b.what
